@@ -346,6 +346,10 @@ class ScoredCollector(Collector):
         self.replaced_times = 0
         # Number of blocks skipped by quality optimizations (for debugging)
         self.skipped_times = 0
+        # True once matching documents may have been passed over (the matcher
+        # was replaced against a minimum score, or blocks were skipped), after
+        # which the running total is no longer the number of matches
+        self.pruned = False
 
     def sort_key(self, sub_docnum):
         return 0 - self.matcher.score()
@@ -389,6 +393,8 @@ class ScoredCollector(Collector):
             # matcher with a more efficient version
             if replace:
                 if replacecounter == 0 or self.minscore != minscore:
+                    if minscore:
+                        self.pruned = True
                     self.matcher = matcher = matcher.replace(minscore or 0)
                     self.replaced_times += 1
                     if not matcher.is_active():
@@ -406,7 +412,10 @@ class ScoredCollector(Collector):
             # flag is true, try to skip ahead to the next block with the
             # minimum required quality
             if usequality and checkquality and minscore is not None:
-                self.skipped_times += matcher.skip_to_quality(minscore)
+                skipped = matcher.skip_to_quality(minscore)
+                if skipped:
+                    self.pruned = True
+                    self.skipped_times += skipped
                 # Skipping ahead might have moved the matcher to the end of the
                 # posting list
                 if not matcher.is_active():
@@ -442,7 +451,10 @@ class TopCollector(ScoredCollector):
                 and self.matcher.supports_block_quality())
 
     def computes_count(self):
-        return not self._use_block_quality()
+        # self.matcher is only the matcher of the last segment searched, and
+        # it may have been replaced by one that does not support block
+        # quality; what matters is whether anything was passed over
+        return not (self.pruned or self._use_block_quality())
 
     def all_ids(self):
         # Since this collector can skip blocks, it doesn't track the total
